@@ -103,7 +103,7 @@ macro_rules! c13_instance {
     };
 }
 
-// @verif id=C13.1a props=C13,C10 tier=quick
+// @verif id=C13.1a props=C13 tier=quick
 // @functions ConnectingPerAddr::insert, ConnectingPerAddr::pop, ConnectingPerAddr::pop_by_token, ConnectingPerAddr::is_empty
 // @bounds occupancy pattern 0b0000 (empty table); one operation of {insert, pop(any seq), pop_by_token(any token)}; all sequence numbers/tokens symbolic and pairwise distinct
 // @asserts len == number of occupied slots <= 4; insert fails iff full; pop/pop_by_token return exactly the matching entry and free its slot; a miss changes nothing
@@ -111,7 +111,7 @@ macro_rules! c13_instance {
 // @unwind 6
 c13_instance!(c13_1_table_empty, 0b0000);
 
-// @verif id=C13.1b props=C13,C10 tier=quick
+// @verif id=C13.1b props=C13 tier=quick
 // @functions ConnectingPerAddr::insert, ConnectingPerAddr::pop, ConnectingPerAddr::pop_by_token
 // @bounds occupancy pattern 0b0101 (slots 0 and 2 pending)
 // @asserts as C13.1a
@@ -127,7 +127,7 @@ c13_instance!(c13_1_table_0101, 0b0101);
 // @unwind 6
 c13_instance!(c13_1_table_full, 0b1111);
 
-// @verif id=C13.1d props=C13,C10 tier=thorough
+// @verif id=C13.1d props=C13 tier=thorough
 // @functions ConnectingPerAddr::insert, ConnectingPerAddr::pop, ConnectingPerAddr::pop_by_token
 // @bounds occupancy pattern 0b1110
 // @asserts as C13.1a
@@ -135,7 +135,7 @@ c13_instance!(c13_1_table_full, 0b1111);
 // @unwind 6
 c13_instance!(c13_1_table_1110, 0b1110);
 
-// @verif id=C13.2 props=C13,C10 tier=quick
+// @verif id=C13.2 props=C13 tier=quick
 // @functions constants ACCEPT_QUEUE_MAX_SYNS, MAX_CONNECTING_PER_ADDR
 // @bounds the compiled constants
 // @asserts the SYN backlog and the per-address connecting table are bounded by fixed constants (32 and 4)
